@@ -192,13 +192,21 @@ def build_sqlite(users, path):
     return Built('sqlite', real, 'SSql [%s]' % '; '.join(rows), cleanup=lambda: (real.sql.close(), os.remove(path)))
 
 
-def build_json(users, path):
-    table = {i: dict(owner=c['owner'], secret=c['secret'], pubchans=c['pubchans'], subchans=c['subchans'])
-             for i, c in users.items() if c is not None}
+def build_json(users, path, before=None):
+    """the JSON store as configured by `users`; with `before`, the user file first held that table and was loaded, then it
+    was rewritten with `users` and loaded again (what the inotify watcher does): what counts is the file as it is now"""
+    def tab(us):
+        return {i: dict(owner=c['owner'], secret=c['secret'], pubchans=c['pubchans'], subchans=c['subchans'])
+                for i, c in us.items() if c is not None}
+    table = tab(users)
     with open(path, 'w') as f:
-        json.dump(table, f)
+        json.dump(tab(before) if before is not None else table, f)
     real = json_store.Authenticator(path)
     real.load()
+    if before is not None:
+        with open(path, 'w') as f:
+            json.dump(table, f)
+        real.load()
     k, ast = to_ast(table)
     return Built('json', real, 'SJson [%s]' % '; '.join('(%s, %s)' % (coq_bytes(key), coq_json(x)) for key, x in ast),
                  cleanup=lambda: os.remove(path))
